@@ -107,7 +107,7 @@ type c18Case struct {
 
 // words and characters for this check avoid everything that occurs in the
 // library's fixed diagnostic texts
-var c18Words = []string{"zanzibar", "quokka", "Quokka", "quokka", "fjord", "Fjord", "xylem", "正確", "馬", "vivid", "juju", "jazzy", "ñandú", "kiwi kiwi", "Zebu", "mmm", "qqq"}
+var c18Words = []string{"zanzibar", "quokka", "Quokka", "quokka", "fjord", "Fjord", "xylem", "正確", "馬", "vivid", "juju", "jazzy", "ñandú", "kiwi kiwi", "Zebu", "mmm", "qqq", strings.Repeat("zqxj", 76)}
 var c18Chars = []string{"Q", "J", "K", "Z", "X", "V", "W", "q", "j", "z", "@", "_", "é", "ß", "λ", "正", "Ω", "Ж", " ", "\t"}
 
 func c18Run(c c18Case) error {
@@ -129,6 +129,13 @@ func c18Run(c c18Case) error {
 				// a stream of candidates made only of the first alphabet character (plus key-dependent ones)
 				capt = capture(func() {
 					o = callForced(nil, func(k int, n uint32) uint32 {
+						if c.Key1%4 == 1 {
+							// every draw the same index: candidates of one repeated character
+							if key == c.Key1 {
+								return 0
+							}
+							return n - 1
+						}
 						if c.Char.Length > 0 && k%c.Char.Length == 0 {
 							return 0
 						}
